@@ -351,8 +351,9 @@ def evaluate(chk, cases, ev, findings, stats):
     return disagreements, failures, known
 
 
-def shrink(chk, item, budget=300):
+def shrink(chk, item, budget=300, findings=()):
     """greedy shrink of a failing case, keeping `oracle` failing and outside known regions"""
+    known = [f for f in findings if f.get("kind") == "known"]
     best = item
     n0 = len(json.dumps(item["case"]))
     improved = True
@@ -364,6 +365,8 @@ def shrink(chk, item, budget=300):
                 break
             io = chk.safe_impl(cand)
             why = chk.oracle(cand, io)
+            if why is not None and any(chk.region(f, cand) for f in known):
+                continue   # do not walk a new failure into the region of a recorded finding
             if why is not None:
                 best = {"case": cand, "implementation": io, "model": None, "oracle": why}
                 improved = True
@@ -490,7 +493,7 @@ def run_check(chk, tier, seed):
 
     rc = 0
     if verdict_item is not None:
-        verdict_item = shrink(chk, verdict_item)
+        verdict_item = shrink(chk, verdict_item, findings=findings)
         path = write_replay(chk, tier, seed, "counterexample", verdict_item, ev["broken"])
         print("VIOLATION property=%s replay=%s" % (chk.PROPERTY, path))
         print("  oracle: %s" % verdict_item.get("oracle"))
